@@ -47,7 +47,7 @@ Definition join_ts (part1 part2 : bytes) : bytes :=
     WalkDir-relative file names): not empty, no slash at either end *)
 Definition relb (s : bytes) : bool :=
   negb (is_nil s) && negb (head_is_slash s) && negb (last_is_slash s).
-(** a stored repository prefix is usable by prefix_offset (s3.rs:780-784) iff it does not end
+(** a stored repository prefix is usable by prefix_offset (s3.rs:816-820) iff it does not end
     with a slash; since commit 1405318 S3Client::new guarantees this (see [client_prefix]) *)
 Definition pfx_ok (p : bytes) : bool := negb (last_is_slash p).
 
@@ -62,10 +62,10 @@ Fixpoint trim_trailing_slashes (s : bytes) : bytes :=
               end
   end.
 
-(** the repository prefix S3Client::new stores, s3.rs:741:
+(** the repository prefix S3Client::new stores, s3.rs:777:
     [util::trim_trailing_slashes(prefix.unwrap_or_default())]; [raw] is the option value the
     caller gave ([None] = empty).  Everything below ([cprefix] arguments) works on the STORED
-    prefix, as the methods of S3Client do ([self.prefix], s3.rs:761,780-784,814,843,873,893,923,952).
+    prefix, as the methods of S3Client do ([self.prefix], s3.rs:797,816-820,850,879,909,929,959,988).
     A leading slash is kept (nothing trims it): "/pre" stores keys "/pre/..." and lists
     "/pre/"; "/" alone becomes the empty prefix = the bucket root. *)
 Definition client_prefix (raw : bytes) : bytes := trim_trailing_slashes raw.
@@ -83,7 +83,7 @@ Definition head_is_boundary (s : bytes) : bool :=
 Definition slice_from (off : nat) (s : bytes) : res bytes :=
   if Nat.ltb (List.length s) off then Panic
   else let r := skipn off s in if head_is_boundary r then Ok r else Panic.
-(** [&p[off..p.len() - 1]] (s3.rs:794-796) *)
+(** [&p[off..p.len() - 1]] (s3.rs:830-832) *)
 Definition slice_dir (off : nat) (p : bytes) : res bytes :=
   match p with
   | [] => Panic                                   (* 0usize - 1 *)
@@ -103,7 +103,7 @@ Fixpoint upto_slash (s : bytes) : option bytes :=
   end.
 
 (** ListObjectsV2 on one key: not under the prefix / a key / rolled up into a common prefix
-    (delimiter "/" is the only one s3.rs uses: list_dir, s3.rs:749) *)
+    (delimiter "/" is the only one s3.rs uses: list_dir, s3.rs:785) *)
 Definition classify (prefix : bytes) (delim : bool) (key : bytes) : option entry :=
   if starts_with prefix key then
     if delim then
@@ -142,7 +142,7 @@ Definition serve (psize : nat) (ents : list entry) (tok : option nat) : page :=
 (* ------------------------------------------------------------------ S3Client::list_prefix *)
 
 Definition prefix_offset (cprefix : bytes) : nat :=
-  match cprefix with [] => O | _ => S (List.length cprefix) end.           (* s3.rs:780-784 *)
+  match cprefix with [] => O | _ => S (List.length cprefix) end.           (* s3.rs:816-820 *)
 
 Fixpoint map_res {A B} (f : A -> res B) (l : list A) : res (list B) :=
   match l with
@@ -159,7 +159,7 @@ Definition keys_of_entries (l : list entry) : list bytes :=
 Definition pres_of_entries (l : list entry) : list bytes :=
   flat_map (fun e => match e with EPre p => [p] | EKey _ => [] end) l.
 
-(** s3.rs:786-798 on one answer: contents, then common prefixes *)
+(** s3.rs:822-834 on one answer: contents, then common prefixes *)
 Definition process_page (off : nat) (ents : list entry) : res (list bytes * list bytes) :=
   match map_res (slice_from off) (keys_of_entries ents) with
   | Ok objs => match map_res (slice_dir off) (pres_of_entries ents) with
@@ -178,7 +178,7 @@ Definition res_app (acc : list bytes * list bytes) (r : res (list bytes * list b
   | Panic => Panic
   end.
 
-(** the loop of s3.rs:769-805; [None] = fuel exhausted (shown unreachable for psize >= 1) *)
+(** the loop of s3.rs:805-841; [None] = fuel exhausted (shown unreachable for psize >= 1) *)
 Fixpoint list_loop (fuel psize : nat) (ents : list entry) (off : nat) (tok : option nat)
          (acc : list bytes * list bytes) : option (res (list bytes * list bytes)) :=
   match fuel with
@@ -193,7 +193,7 @@ Fixpoint list_loop (fuel psize : nat) (ents : list entry) (off : nat) (tok : opt
       end
   end.
 
-Definition request_prefix (cprefix path : bytes) : bytes := join_ts cprefix path.   (* s3.rs:761 *)
+Definition request_prefix (cprefix path : bytes) : bytes := join_ts cprefix path.   (* s3.rs:797 *)
 
 Definition list_paged (psize : nat) (keys : list bytes) (cprefix path : bytes) (delim : bool)
   : option (res (list bytes * list bytes)) :=
@@ -215,7 +215,7 @@ Definition list_tokens (psize : nat) (keys : list bytes) (cprefix path : bytes) 
   let n := List.length (entries_of [] (request_prefix cprefix path) delim keys) in
   tokens_from (S n) psize O n.
 
-(** S3Storage::list, s3.rs:1184-1215 (kind: false = file, true = directory) *)
+(** S3Storage::list, s3.rs:1220-1251 (kind: false = file, true = directory) *)
 Definition storage_list (keys : list bytes) (cprefix path : bytes) (recursive : bool)
   : res (list (bool * bytes)) :=
   let plen := if is_nil path || last_is_slash path then List.length path else S (List.length path) in
@@ -234,13 +234,13 @@ Definition storage_list (keys : list bytes) (cprefix path : bytes) (recursive : 
   | Panic => Panic
   end.
 
-(** is_object_dir, s3.rs:1416-1423 *)
+(** is_object_dir, s3.rs:1452-1459 *)
 Definition is_object_dir (objects : list bytes) : bool :=
   existsb (fun o => ends_with K_OBJECT_NAMASTE_FILE_1_0 o || ends_with K_OBJECT_NAMASTE_FILE_1_1 o) objects.
 
 Definition extensions_dir_suffix : bytes := slash :: K_EXTENSIONS_DIR.       (* s3.rs:51 *)
 
-(** InventoryIter::next, s3.rs:1124-1166, run to exhaustion: the object roots found (in
+(** InventoryIter::next, s3.rs:1160-1202, run to exhaustion: the object roots found (in
     order) and the paths listed (in order).  [None] = fuel exhausted. *)
 Fixpoint scan (fuel : nat) (keys : list bytes) (cprefix : bytes)
          (current : option (list bytes)) (stack : list (list bytes))
@@ -290,7 +290,7 @@ Fixpoint flatten (t : tree) : list (list bytes * bytes) :=
 
 (** the keys under which the files of tree [t], rooted at storage path [at_path], are stored:
     one paths::join per directory level (upload_all_files_with_rollback joins the destination
-    with the WalkDir-relative name, put_object_file joins the repository prefix, s3.rs:262,923) *)
+    with the WalkDir-relative name, put_object_file joins the repository prefix, s3.rs:296,959) *)
 Fixpoint keys_under (at_path : bytes) (t : tree) : list (bytes * bytes) :=
   match t with
   | TFile c => [(at_path, c)]
@@ -372,7 +372,7 @@ Definition mreq (fa : option N) (r : req) (eff : bucket -> bucket) (s : st) : re
 
 Definition same (bk : bucket) : bucket := bk.
 
-(** number of upload_part requests: reads of PART_SIZE bytes until end of file, s3.rs:990-1022 *)
+(** number of upload_part requests: reads of PART_SIZE bytes until end of file, s3.rs:1026-1058 *)
 Definition n_parts (len : N) : N := (len + K_S3_PART_SIZE - 1) / K_S3_PART_SIZE.
 
 Fixpoint mp_parts (fa : option N) (key : bytes) (i : N) (todo : nat) (s : st) : res unit * st :=
@@ -381,11 +381,11 @@ Fixpoint mp_parts (fa : option N) (key : bytes) (i : N) (todo : nat) (s : st) : 
   | S t =>
       match mreq fa (RMpPart key i) same s with
       | (Ok _, s1) => mp_parts fa key (i + 1) t s1
-      | (_, s1) => (Err, snd (mreq fa (RMpAbort key) same s1))         (* abort_multipart, s3.rs:1010-1013 *)
+      | (_, s1) => (Err, snd (mreq fa (RMpAbort key) same s1))         (* abort_multipart, s3.rs:1046-1049 *)
       end
   end.
 
-(** multipart_put_file, s3.rs:945-1039: a failed create or complete is returned as is (no abort) *)
+(** multipart_put_file, s3.rs:981-1075: a failed create or complete is returned as is (no abort) *)
 Definition multipart_put (fa : option N) (key : bytes) (len : N) (tok : bytes) (s : st) : res unit * st :=
   match mreq fa (RMpCreate key) same s with
   | (Ok _, s1) =>
@@ -396,23 +396,23 @@ Definition multipart_put (fa : option N) (key : bytes) (len : N) (tok : bytes) (
   | (_, s1) => (Err, s1)
   end.
 
-(** put_object_file, s3.rs:912-943 *)
+(** put_object_file, s3.rs:948-979 *)
 Definition put_object_file (fa : option N) (cprefix path : bytes) (len : N) (tok : bytes) (s : st) : res unit * st :=
   let key := join cprefix path in
   if K_S3_PART_SIZE <? len then multipart_put fa key len tok s
   else mreq fa (RPut key) (bk_put key tok) s.
 
-(** put_object_bytes, s3.rs:887-910 *)
+(** put_object_bytes, s3.rs:923-946 *)
 Definition put_object_bytes (fa : option N) (cprefix path tok : bytes) (s : st) : res unit * st :=
   let key := join cprefix path in mreq fa (RPut key) (bk_put key tok) s.
 
-(** delete_object, s3.rs:872-885 *)
+(** delete_object, s3.rs:908-921 *)
 Definition delete_object (fa : option N) (cprefix path : bytes) (s : st) : res unit * st :=
   let key := join cprefix path in mreq fa (RDelete key) (bk_remove key) s.
 
 Record ufile := mkUf { uf_rel : bytes; uf_len : N; uf_tok : bytes }.
 
-(** the closure of upload_all_files_with_rollback, s3.rs:248-267, over the WalkDir sequence *)
+(** the closure of upload_all_files_with_rollback, s3.rs:282-301, over the WalkDir sequence *)
 Fixpoint upload_loop (fa : option N) (cprefix dst : bytes) (files : list ufile) (done : list bytes) (s : st)
   : (res unit * list bytes) * st :=
   match files with
@@ -425,14 +425,14 @@ Fixpoint upload_loop (fa : option N) (cprefix dst : bytes) (files : list ufile) 
       end
   end.
 
-(** the rollback of do_with_rollback, s3.rs:304-308: failures of the deletes are only logged *)
+(** the rollback of do_with_rollback, s3.rs:338-342: failures of the deletes are only logged *)
 Fixpoint rollback (fa : option N) (cprefix : bytes) (done : list bytes) (s : st) : st :=
   match done with
   | [] => s
   | p :: r => rollback fa cprefix r (snd (delete_object fa cprefix p s))
   end.
 
-(** do_with_rollback, s3.rs:298-313 *)
+(** do_with_rollback, s3.rs:332-347 *)
 Definition do_with_rollback (fa : option N) (cprefix : bytes)
            (body : list bytes -> st -> (res unit * list bytes) * st) (done : list bytes) (s : st)
   : res (list bytes) * st :=
@@ -444,7 +444,7 @@ Definition do_with_rollback (fa : option N) (cprefix : bytes)
 Definition upload_all (fa : option N) (cprefix dst : bytes) (files : list ufile) (s : st) :=
   do_with_rollback fa cprefix (upload_loop fa cprefix dst files) [] s.
 
-(** the closure of install_inventory_in_root_with_rollback, s3.rs:286-293 *)
+(** the closure of install_inventory_in_root_with_rollback, s3.rs:320-327 *)
 Definition install_body (fa : option N) (cprefix inv_dst sc_dst : bytes) (inv sc : ufile)
            (done : list bytes) (s : st) : (res unit * list bytes) * st :=
   match put_object_file fa cprefix inv_dst (uf_len inv) (uf_tok inv) s with
@@ -474,7 +474,7 @@ Record nv_input := mkNv {
   nv_upgrade : option (bytes * bytes)   (* Some (new declaration file name, content) iff the type declaration changed *)
 }.
 
-(** find_files, s3.rs:346-355 *)
+(** find_files, s3.rs:380-389 *)
 Definition find_files (keys : list bytes) (cprefix dir name_prefix : bytes) : res (list bytes) :=
   let p := join dir name_prefix in
   match list_all keys cprefix dir true with
@@ -493,7 +493,7 @@ Fixpoint delete_each (fa : option N) (cprefix : bytes) (paths : list bytes) (s :
               end
   end.
 
-(** the declaration swap of an upgrade, s3.rs:538-549 (no rollback) *)
+(** the declaration swap of an upgrade, s3.rs:574-585 (no rollback) *)
 Definition swap_declaration (fa : option N) (cprefix root : bytes) (up : option (bytes * bytes)) (s : st)
   : res unit * st :=
   match up with
@@ -510,7 +510,7 @@ Definition swap_declaration (fa : option N) (cprefix root : bytes) (up : option 
       end
   end.
 
-(** write_new_version, s3.rs:495-552, from the emptiness test of the version prefix on (the
+(** write_new_version, s3.rs:531-588, from the emptiness test of the version prefix on (the
     head comparison before it reads only) *)
 Definition write_new_version (fa : option N) (cprefix : bytes) (i : nv_input) (s : st) : res unit * st :=
   let vdst := join (nv_root i) (nv_vstr i) in
@@ -532,7 +532,7 @@ Definition write_new_version (fa : option N) (cprefix : bytes) (i : nv_input) (s
   | Panic => (Panic, s)
   end.
 
-(** write_new_object, s3.rs:449-488: the whole staged object directory in WalkDir order *)
+(** write_new_object, s3.rs:483-524: the whole staged object directory in WalkDir order *)
 Definition write_new_object (fa : option N) (cprefix root : bytes) (files : list ufile) (s : st) : res unit * st :=
   match listing_empty (list_all (bk_keys (st_b s)) cprefix root true) with
   | Ok true =>
@@ -569,7 +569,7 @@ Definition init_st (bk : bucket) : st := mkSt bk 0 [].
 
 (* ------------------------------------------------------------------ C15: purge_object *)
 
-(** the loop of purge_object, s3.rs:570-581, over the keys list_objects returned: a failed
+(** the loop of purge_object, s3.rs:606-617, over the keys list_objects returned: a failed
     delete is logged and remembered, the loop goes on *)
 Fixpoint purge_loop (fa : option N) (cprefix : bytes) (files : list bytes) (failed : bool) (s : st) : bool * st :=
   match files with
@@ -580,8 +580,8 @@ Fixpoint purge_loop (fa : option N) (cprefix : bytes) (files : list bytes) (fail
               end
   end.
 
-(** S3OcflStore::purge_object, s3.rs:557-594, from the object root on (the lookup before it
-    reads only): everything the recursive listing [list_objects(object_root)] (s3.rs:570,
+(** S3OcflStore::purge_object, s3.rs:593-630, from the object root on (the lookup before it
+    reads only): everything the recursive listing [list_objects(object_root)] (s3.rs:606,
     754-756: list_prefix without delimiter) returns is deleted *)
 Definition purge_object (fa : option N) (cprefix root : bytes) (s : st) : res unit * st :=
   match list_all (bk_keys (st_b s)) cprefix root false with
@@ -591,3 +591,31 @@ Definition purge_object (fa : option N) (cprefix root : bytes) (s : st) : res un
   | Err => (Err, s)
   | Panic => (Panic, s)
   end.
+
+(* ------------------------------------------------------------------ C15: the root of a new object *)
+
+(** S3OcflStore::validate_object_root, s3.rs:242-274 (/repo commit 1c63a11), called by
+    write_new_object (s3.rs:505) before the "existing files" test: [object_root.split('/')] =
+    [segments]; an empty, "." or ".." part is refused; a first part `extensions` is refused; for
+    every proper ancestor (the parts joined so far) the delimited listing must not show an
+    object declaration (is_object_dir, s3.rs:1452-1459) *)
+Fixpoint validate_parts (keys : list bytes) (cprefix current : bytes) (first : bool) (parts : list bytes) : res unit :=
+  match parts with
+  | [] => Ok tt
+  | part :: rest =>
+      if is_nil part || bytes_eqb part (b ".") || bytes_eqb part (b "..") then Err
+      else if first && bytes_eqb part K_EXTENSIONS_DIR then Err
+      else
+        let cur := join current part in
+        match rest with
+        | [] => Ok tt
+        | _ :: _ =>
+            match list_all keys cprefix cur true with
+            | Ok (objs, _) => if is_object_dir objs then Err else validate_parts keys cprefix cur false rest
+            | Err => Err
+            | Panic => Panic
+            end
+        end
+  end.
+Definition s3_validate_object_root (keys : list bytes) (cprefix root : bytes) : res unit :=
+  validate_parts keys cprefix [] true (segments root).
